@@ -447,21 +447,23 @@ class Cid(object):
                     % (_compat.text_repr(field_name), field_format.length.lower_limit),
                     self._location,
                 )
-        elif field_length.lower_limit is not None:
-            if field_length.lower_limit < 0:
-                raise errors.InterfaceError(
-                    "lower limit for length of field %s must be at least 0 but is: %d"
-                    % (_compat.text_repr(field_name), field_format.length.lower_limit),
-                    self._location,
-                )
-        elif field_length.upper_limit is not None:
-            # Note: 0 as upper limit is valid for a field that must always be empty.
-            if field_length.upper_limit < 0:
-                raise errors.InterfaceError(
-                    "upper limit for length of field %s must be at least 0 but is: %d"
-                    % (_compat.text_repr(field_name), field_format.length.upper_limit),
-                    self._location,
-                )
+        elif field_length.items is not None:
+            # Note: Examine each part of the length because the overall lower and upper limit are
+            # None as soon as any part is open on that side.
+            for lower_length, upper_length in field_length.items:
+                if (lower_length is not None) and (lower_length < 0):
+                    raise errors.InterfaceError(
+                        "lower limit for length of field %s must be at least 0 but is: %d"
+                        % (_compat.text_repr(field_name), lower_length),
+                        self._location,
+                    )
+                # Note: 0 as upper limit is valid for a field that must always be empty.
+                if (upper_length is not None) and (upper_length < 0):
+                    raise errors.InterfaceError(
+                        "upper limit for length of field %s must be at least 0 but is: %d"
+                        % (_compat.text_repr(field_name), upper_length),
+                        self._location,
+                    )
 
         # Set and validate example in case there is one.
         if field_example != "":
